@@ -1257,6 +1257,77 @@ fire("c11-nary-adjoint-tail-gets-bare-incoming-adjoint", "C11", ADJOINT_, _NARY_
 silent("c11-s-nary-adjoint-tail-gets-adjoint-of-rest", "C11", ADJOINT_, _NARY_OLD, _NARY_NEW % "rest_adj")
 silent("c11-s-nary-adjoint-tail-gets-explicit-product", "C11", ADJOINT_, _NARY_OLD, _NARY_NEW % "adj_prod_op(out_adj, head)")
 
+
+# ---- round 7: operand order, kernels, affine calculus, splits of the reduced variables, shapes
+CONSTANT = "funsor/constant.py"
+GAUSSIAN_ = "funsor/gaussian.py"
+for _p, _r in (("C02", "R02.23"), ("C01", "R01.22")):
+    fire(f"{_p.lower()}-constant-tensor-operands-swapped-under-wrapper", _p, CONSTANT,
+         "    if const_inputs:\n        return Constant(const_inputs, op(lhs.arg, rhs))\n    return op(lhs.arg, rhs)\n",
+         "    if const_inputs:\n        return Constant(const_inputs, op(rhs, lhs.arg))\n    return op(lhs.arg, rhs)\n", _r, "eager_binary_constant_tensor")
+    silent(f"{_p.lower()}-s-constant-tensor-operands-via-locals", _p, CONSTANT,
+           "    if const_inputs:\n        return Constant(const_inputs, op(lhs.arg, rhs))\n    return op(lhs.arg, rhs)\n",
+           "    left, right = lhs.arg, rhs\n    if const_inputs:\n        return Constant(const_inputs, op(left, right))\n    return op(left, right)\n")
+for _p, _r in (("C04", "R04.22"), ("C01", "R01.23"), ("C02", "R02.24"), ("C03", "R03.17")):
+    fire(f"{_p.lower()}-binary-fast-path-compares-input-sets", _p, TENSOR,
+         "    dtype = find_domain(op, lhs.output, rhs.output).dtype\n    if lhs.inputs == rhs.inputs:\n        inputs = lhs.inputs\n        lhs_data, rhs_data = lhs.data, rhs.data\n    else:\n        inputs, (lhs_data, rhs_data) = align_tensors(lhs, rhs)\n\n    # Reshape",
+         "    dtype = find_domain(op, lhs.output, rhs.output).dtype\n    if set(lhs.inputs) == set(rhs.inputs):\n        inputs = lhs.inputs\n        lhs_data, rhs_data = lhs.data, rhs.data\n    else:\n        inputs, (lhs_data, rhs_data) = align_tensors(lhs, rhs)\n\n    # Reshape",
+         _r, "eager_binary_tensor_tensor")
+    silent(f"{_p.lower()}-s-binary-fast-path-compares-item-tuples", _p, TENSOR,
+           "    dtype = find_domain(op, lhs.output, rhs.output).dtype\n    if lhs.inputs == rhs.inputs:\n        inputs = lhs.inputs\n        lhs_data, rhs_data = lhs.data, rhs.data\n    else:\n        inputs, (lhs_data, rhs_data) = align_tensors(lhs, rhs)\n\n    # Reshape",
+           "    dtype = find_domain(op, lhs.output, rhs.output).dtype\n    if tuple(lhs.inputs.items()) == tuple(rhs.inputs.items()):\n        inputs = lhs.inputs\n        lhs_data, rhs_data = lhs.data, rhs.data\n    else:\n        inputs, (lhs_data, rhs_data) = align_tensors(lhs, rhs)\n\n    # Reshape")
+_PAD_OLD = "        rhs_data = rhs_data.reshape(rhs_data.shape + (1,) * (len(lhs.output.shape) - 1))\n"
+for _p, _r, _r2 in (("C04", "R04.23", "R04.24"), ("C03", "R03.18", "R03.19"), ("C01", "R01.24", "R01.25"), ("C02", "R02.25", "R02.26")):
+    fire(f"{_p.lower()}-getitem-pad-from-index-operand-shape", _p, TENSOR, _PAD_OLD,
+         "        rhs_data = rhs_data.reshape(rhs.data.shape + (1,) * (len(lhs.output.shape) - 1))\n", _r, "eager_getitem_tensor_tensor")
+    fire(f"{_p.lower()}-getitem-pad-full-event-rank", _p, TENSOR, _PAD_OLD,
+         "        rhs_data = rhs_data.reshape(rhs_data.shape + (1,) * len(lhs.output.shape))\n", _r2, "eager_getitem_tensor_tensor")
+    silent(f"{_p.lower()}-s-getitem-pad-via-local-count", _p, TENSOR, _PAD_OLD,
+           "        n_pad = len(lhs.output.shape) - 1\n        rhs_data = rhs_data.reshape(rhs_data.shape + (1,) * n_pad)\n")
+fire("c04-affine-quotient-ignores-denominator", "C04", AFFINE,
+     "        return affine_inputs(fn.lhs) - _real_inputs(fn.rhs)\n", "        return affine_inputs(fn.lhs)\n", "R04.25", "_#3")
+fire("c04-affine-sum-is-union-again", "C04", AFFINE,
+     "        return (lhs_affine | rhs_affine) - lhs_nonaffine - rhs_nonaffine\n", "        return lhs_affine | rhs_affine\n", "R04.25", "_#3")
+fire("c04-affine-product-bilinear-claimed", "C04", AFFINE,
+     "        # This multilinear case introduces incompleteness, since some vars\n        # could later be reduced, making remaining vars affine.\n        return frozenset()\n    return frozenset()\n\n\n@affine_inputs.register(Reduce)",
+     "        return lhs_affine | rhs_affine\n    return frozenset()\n\n\n@affine_inputs.register(Reduce)", "R04.25", "_#3")
+silent("c04-s-affine-sum-intersection-spelling", "C04", AFFINE,
+       "        return (lhs_affine | rhs_affine) - lhs_nonaffine - rhs_nonaffine\n",
+       "        return (lhs_affine | rhs_affine) - (lhs_nonaffine | rhs_nonaffine)\n")
+fire("c04-gaussian-real-stage-keeps-int-pairs", "C04", GAUSSIAN_,
+     "        if int_subs:\n            return self._eager_subs_int(int_subs, real_subs + affine_subs + lazy_subs)\n        if real_subs:\n            return self._eager_subs_real(real_subs, affine_subs + lazy_subs)\n",
+     "        if real_subs:\n            return self._eager_subs_real(real_subs, int_subs + affine_subs + lazy_subs)\n        if int_subs:\n            return self._eager_subs_int(int_subs, affine_subs + lazy_subs)\n",
+     "R04.6", "_eager_subs_real")
+for _p, _r in (("C04", "R04.17"), ("C05", "R05.13")):
+    fire(f"{_p.lower()}-substitute-fresh-falls-back-when-empty", _p, TERMS,
+         "            fresh = expr.fresh if node_fresh is None else node_fresh\n", "            fresh = node_fresh if node_fresh else expr.fresh\n", _r, "SubstituteInterpretation.interpret")
+    silent(f"{_p.lower()}-s-substitute-fresh-is-not-none", _p, TERMS,
+           "            fresh = expr.fresh if node_fresh is None else node_fresh\n", "            fresh = node_fresh if node_fresh is not None else expr.fresh\n")
+for _p, _r in (("C01", "R01.26"), ("C08", "R08.19"), ("C02", "R02.27"), ("C03", "R03.20")):
+    fire(f"{_p.lower()}-stack-parts-reduced-over-own-inputs", _p, TERMS,
+         "        parts = tuple(x.reduce(op, reduced_vars) for x in parts)\n        return Stack(self.name, parts)",
+         "        parts = tuple(x.reduce(op, reduced_vars & x.input_vars) for x in parts)\n        return Stack(self.name, parts)", _r, "Stack.eager_reduce")
+for _p, _r in (("C08", "R08.20"), ("C06", "R06.15"), ("C01", "R01.27"), ("C02", "R02.28")):
+    fire(f"{_p.lower()}-constant-reduce-restarts-from-body", _p, CONSTANT,
+         "        result = prod_op(result, size)\n", "        result = prod_op(arg.arg, size)\n", _r, "eager_reduce_add")
+    silent(f"{_p.lower()}-s-constant-reduce-via-second-local", _p, CONSTANT,
+           "        result = prod_op(result, size)\n", "        scaled = prod_op(result, size)\n        result = scaled\n")
+for _p, _r in (("C02", "R02.29"), ("C01", "R01.28"), ("C08", "R08.21")):
+    fire(f"{_p.lower()}-independent-delta-no-alternative", _p, DELTA,
+         "            else:\n                log_density = log_density * delta.inputs[bint_var].dtype\n", "", _r, "eager_independent_delta")
+fire("c06-matmul-domain-left-batch-only", "C06", DOMAINS,
+     "        shape = broadcast_shape(lhs.shape[:-1], rhs.shape[:-2] + (1,)) + rhs.shape[-1:]\n",
+     "        shape = lhs.shape[:-1] + rhs.shape[-1:] if len(lhs.shape) >= len(rhs.shape) else rhs.shape[:-2] + lhs.shape[-2:-1] + rhs.shape[-1:]\n", "R06.16", "_find_domain_matmul")
+fire("c06-ellipsis-fill-ignores-right-part", "C06", BUILTIN,
+     "    middle = (slice(None),) * (size - len(left) - len(right))\n", "    middle = (slice(None),) * (size - len(left))\n", "R06.17", "normalize_ellipsis")
+silent("c06-s-ellipsis-fill-regrouped", "C06", BUILTIN,
+       "    middle = (slice(None),) * (size - len(left) - len(right))\n", "    middle = (slice(None),) * (size - (len(left) + len(right)))\n")
+for _p, _r in (("C07", "R07.3"), ("C01", "R01.21")):
+    fire(f"{_p.lower()}-op-key-is-hash-of-kwargs", _p, OP,
+         "        return args, tuple(kwargs.items())\n", "        return args, hash(tuple(kwargs.items()))\n", _r, "hash_args_kwargs")
+fire("c07-cons-cache-created-unless-inherited", "C07", TERMS,
+     "            cls._cons_cache = WeakValueDictionary()\n", "            if not hasattr(cls, \"_cons_cache\"):\n                cls._cons_cache = WeakValueDictionary()\n", "R07.11", "FunsorMeta.__init__")
+
 # ===== derived variants: must stay at the END of this file (they enumerate every rename() variant above) =====
 # `if c: A else: B` -> `if not c: B else: A` in the anchor functions (behaviour-preserving)
 def invert(prop, file, qual):
